@@ -147,6 +147,7 @@ type Contracts struct {
 	Axioms      []*Axiom
 	GhostFields map[string]*GhostField // "pkgpath.Type.name"
 	GhostVars   map[string]Param
+	ExtAmbiguous map[string]bool // "ext.<key>" assumed by more than one package
 	Order       []string
 	Errors      []string
 }
@@ -270,6 +271,12 @@ func (cs *Contracts) parseFile(fset *token.FileSet, f *ast.File, pkgPath string)
 			k := "ext." + akey
 			if _, dup := cs.Funcs[k]; !dup {
 				cs.Funcs[k] = cur
+			} else {
+				// assumed in several packages: the global entry is ambiguous and never used
+				if cs.ExtAmbiguous == nil {
+					cs.ExtAmbiguous = map[string]bool{}
+				}
+				cs.ExtAmbiguous[k] = true
 			}
 		case "props":
 			if cur != nil {
